@@ -2,6 +2,7 @@ SPECIFICATION Spec
 CONSTANTS
   W = 8
   U = 4
+  MinLen = 1
   MaxLen = 600
   VecBound = "floor"
   TailExit = "eq"
